@@ -232,9 +232,48 @@ Definition deliver (g : gridspec) (in_u : uspec) (e : entry) : pull_res :=
                 else amap (convert (e_units e) in_u) (e_arr e) in        (* xdata.to(units) *)
        if check_delivered g (a_shape a) then RArr a in_u else RData.
 
-Definition lpull (g : gridspec) (in_u : uspec) (s : lstate) (k : nat) (t : Z) : lstate * pull_res :=
+(** ** Transform between two layouts of the same structured grid
+    ([StructuredGrid.get_transform_to], grid_base.py 568-600: [other.from_canonical(self.to_canonical(data))]
+    with the time axis moved out of the way; [to_canonical]/[from_canonical] 500-566).
+    A layout is [axes_reversed] and [axes_increase] (xyz order); [r_dims] is the number of data
+    entries per axis in xyz order.  Array axis [pos] is coordinate axis [pos] (or [dim-1-pos] when
+    reversed); index [i] along a decreasing axis of length [n] is the canonical index [n-1-i]. *)
+Record glayout := mkL { l_rev : bool; l_inc : list bool }.
+Record relay := mkR { r_dims : list nat; r_src : glayout; r_dst : glayout }.
+
+Fixpoint flip_idx (dims : list nat) (inc : list bool) (idx : list nat) : list nat :=
+  match dims, inc, idx with
+  | n :: dr, b :: br, i :: ir => (if b then i else n - 1 - i)%nat :: flip_idx dr br ir
+  | _, _, _ => []
+  end.
+(** canonical (xyz, increasing) multi-index of an index in layout [l], and back *)
+Definition can_of (dims : list nat) (l : glayout) (idx : list nat) : list nat :=
+  flip_idx dims (l_inc l) (if l_rev l then rev idx else idx).
+Definition idx_of (dims : list nat) (l : glayout) (can : list nat) : list nat :=
+  let f := flip_idx dims (l_inc l) can in if l_rev l then rev f else f.
+Definition lshape (dims : list nat) (l : glayout) : list nat := if l_rev l then rev dims else dims.
+
+Definition relay_list {X : Type} (r : relay) (k : nat) (l : list X) (d : X) : list X :=
+  let shs := k :: lshape (r_dims r) (r_src r) in
+  let shd := k :: lshape (r_dims r) (r_dst r) in
+  map (fun p => match unflatC shd p with
+                | j :: ic => nth (flatC shs (j :: idx_of (r_dims r) (r_src r) (can_of (r_dims r) (r_dst r) ic))) l d
+                | [] => d
+                end) (seq 0 (prod shd)).
+
+Definition relayout (tr : option relay) (a : arr) : arr :=
+  match tr, a_shape a with
+  | Some r, k :: _ =>
+      mkA (k :: lshape (r_dims r) (r_dst r)) (relay_list r k (a_data a) 0%Q)
+          (option_map (fun m => relay_list r k m false) (a_mask a))
+  | _, _ => a                                        (* equal layouts: no transform *)
+  end.
+Definition relaid (tr : option relay) (e : entry) : entry := mkE (relayout tr (e_arr e)) (e_units e) (e_buf e).
+
+(** [g] is the consumer's grid, [tr] the transform from the producer's layout (if the layouts differ) *)
+Definition lpull (g : gridspec) (tr : option relay) (in_u : uspec) (s : lstate) (k : nat) (t : Z) : lstate * pull_res :=
   match OutputM.get_data s k t with
-  | (s', Ok e) => (s', deliver g in_u e)
+  | (s', Ok e) => (s', deliver g in_u (relaid tr e))
   | (s', ErrTime) => (s', RTime)
   | (s', ErrNoData) => (s', RNoData)
   end.
@@ -246,13 +285,19 @@ Inductive lop := LPush (t : Z) (p : payload) | LPull (k : nat) (t : Z).   (* k: 
 Inductive lobs := OPush (r : option ecls) | OPull (r : pull_res).
 
 (** one output, consumers 0..n-1 (final inputs, directly linked or behind pass-through adapters), each with its units *)
-Record lcfg := mkC { c_out : info; c_in_units : list uspec }.
-Definition cons_units (c : lcfg) (k : nat) : uspec := nth k (c_in_units c) (i_units (c_out c)).
+Record cons := mkCo { co_units : uspec; co_relay : option relay }.
+Record lcfg := mkC { c_out : info; c_cons : list cons }.
+Definition cons_of (c : lcfg) (k : nat) : cons := nth k (c_cons c) (mkCo (i_units (c_out c)) None).
+Definition cons_grid (c : lcfg) (k : nat) : gridspec :=
+  match co_relay (cons_of c k) with
+  | Some r => GStruct (lshape (r_dims r) (r_dst r)) (grid_orderF (i_grid (c_out c)))
+  | None => i_grid (c_out c)
+  end.
 
 Definition lstep (c : lcfg) (s : lstate) (o : lop) : lstate * lobs :=
   match o with
   | LPush t p => let '(s', r) := lpush (c_out c) s t p in (s', OPush r)
-  | LPull k t => let '(s', r) := lpull (i_grid (c_out c)) (cons_units c k) s k t in (s', OPull r)
+  | LPull k t => let '(s', r) := lpull (cons_grid c k) (co_relay (cons_of c k)) (co_units (cons_of c k)) s k t in (s', OPull r)
   end.
 
 Fixpoint lrun (c : lcfg) (s : lstate) (ops : list lop) : list lobs :=
@@ -261,7 +306,7 @@ Fixpoint lrun (c : lcfg) (s : lstate) (ops : list lop) : list lobs :=
   | o :: r => let '(s', x) := lstep c s o in x :: lrun c s' r
   end.
 
-Definition linit (c : lcfg) : lstate := OutputM.init (seq 0 (length (c_in_units c))).
+Definition linit (c : lcfg) : lstate := OutputM.init (seq 0 (length (c_cons c))).
 
 (* ------------------------------------------------------------------ *)
 (** * Correspondence interface *)
